@@ -156,6 +156,25 @@ theorem activity_children_eq (a : ActivityM) :
 
 theorem failure_children_eq : Failure.Children = none := rfl
 
+/-- what the model lists below a post (`Pub.postChildren`) is the harvest of the collection the
+    translated `Children()` returns, each entry through the reply constructor of this post -/
+theorem postChildren_eq (w : World) (p : PostM) (amount start : Nat) :
+    postChildren w p amount start =
+      (Post.Children p).map fun c =>
+        ((Coll.harvest (loadPage w) c.page amount start).out.map (deliver (replyItem w p.id)),
+         (Coll.harvest (loadPage w) c.page amount start).cont) := by
+  simp only [postChildren, Post.Children]
+  cases p.comments <;> rfl
+
+/-- … and below an actor (`Pub.actorChildren`), through the outbox constructor of this actor -/
+theorem actorChildren_eq (w : World) (a : ActorM) (amount start : Nat) :
+    actorChildren w a amount start =
+      (Actor.Children a).map fun c =>
+        ((Coll.harvest (loadPage w) c.page amount start).out.map (deliver (outboxItem w a.id)),
+         (Coll.harvest (loadPage w) c.page amount start).cont) := by
+  simp only [actorChildren, Actor.Children]
+  cases a.posts <;> rfl
+
 /-! ### The identifiers, authors, audience -/
 
 theorem parentIdentifier_eq (p : PostM) : GenNavigate.Post.ParentIdentifier p = p.parentId := by
